@@ -128,8 +128,12 @@ def observe_case(spec):
             case['texts'].append([text, n0, len(log)])
         except UnexpectedInput:
             del log[n0:]
-        except (Exception, O.Hang):
+        except O.Hang:
             del log[n0:]
+        except Exception as ex:
+            # the tree builder itself raised on a legal grammar and input: an observable, whatever the property
+            del log[n0:]
+            case.setdefault('crashes', []).append([text, type(ex).__name__, str(ex)[:120]])
     case['reds'] = log
     return case
 
@@ -151,6 +155,10 @@ def judge(pid, cases, ev, rep, tmp, name):
         chunk = cases[off:off + CH]
         jobs.append((chunk, C.write_batch({'cases': [{'rules': c['rules'], 'pp': c['pp'], 'amb': bool(c.get('amb')), 'reds': c['reds']} for c in chunk]}, tmp, 'tb_%s_%d.json' % (name, off))))
     results = C.tlc_parallel('TraceBuilder', TRACE_CFG, [j[1] for j in jobs], continue_=True, timeout=3000)
+    for c in cases:
+        for text, cls, msg in c.get('crashes', [])[:3]:
+            rep.violation({'property': pid, 'clause': 'builder:parse-raised-' + cls, 'grammar': c['gtext'], 'text': text, 'message': msg,
+                           'options': {'keep_all_tokens': c['ka'], 'maybe_placeholders': c['ph'], 'propagate_positions': c['pp'], 'ambiguity_explicit': bool(c.get('amb'))}})
     drift = []
     for (chunk, path), res in zip(jobs, results):
         C.tlc_must_run(res, 'TraceBuilder')
@@ -202,6 +210,11 @@ def directed():
     gs.append({'rules': [rule('start', [E.seq([A, R('x'), A])]), rule('x', [R('y')], True), rule('y', [E.seq([C_, R('k'), D]), R('k')], True),
                          rule('k', [E.seq([B, E.rep(C_, 0, -1)])])]})
     gs.append({'rules': [rule('start', [E.rep(R('z'), 1, 3)]), rule('z', [E.seq([D, R('z'), D]), E.seq([C_, R('k')])], True), rule('k', [E.seq([A, E.rep(D, 0, 2)]), E.seq([B, B])])]})
+    # a ?rule whose only tree child is EMPTY, next to filtered tokens: the node takes its whole span from the tokens around it
+    # (hunted defect 44: the start was written into the child's meta first, which made the child its own "last child with a position")
+    gs.append({'rules': [rule('start', [E.rep(R('a'), 1, 3)]), rule('a', [E.seq([C_, R('b')]), E.seq([R('b'), D, C_]), E.seq([C_, R('b'), C_])], True),
+                         rule('b', [E.seq([]), A])]})
+    gs.append({'rules': [rule('start', [E.seq([R('a'), E.opt(B)])]), rule('a', [E.seq([C_, R('k'), E.rep(D, 0, 2)])], True), rule('k', [R('b')], True), rule('b', [E.seq([])])]})
     return gs
 
 
